@@ -59,7 +59,7 @@ def _leafset(t):
   (two arguments can only be proportional if these coincide)."""
   i = t.get_id()
   if i in _LS:
-    return _LS[i]
+    return _LS[i][1]
   out = set()
   seen = set()
   stack = [t]
@@ -75,13 +75,16 @@ def _leafset(t):
         continue
     stack.extend(x.children())
   fs = frozenset(out)
-  _LS[i] = fs
   if len(_LS) > 20000:
     _LS.clear()
+  _LS[i] = (t, fs)    # keep t alive: z3 reuses the ids of freed terms
   return fs
 
 
 _RATIOS = ((1, 1), (2, 1), (1, 2), (-1, 1), (-2, 1), (-1, 2), (3, 1), (-3, 1), (1, 3), (-1, 3))
+
+
+RAW_EXP = False   # tolerant mode: no canonicalisation, poly.py normalises exp factors itself
 
 
 def exp_atom(t):
@@ -89,6 +92,10 @@ def exp_atom(t):
   on this path: if t == (p/q)*u for a known argument u the atom is expressed
   through EXP(u) (q > 1 introduces a new base atom b with EXP(u) == b**q)."""
   run = core.cur()
+  if RAW_EXP:
+    a = EXP(t)
+    run.assume(a > 0)
+    return a
   reg = run.__dict__.setdefault("exp_atoms", [])
   key = _leafset(t)
   for (u, a) in reg:
